@@ -417,8 +417,9 @@ struct Value {
 
     inline void operator+=(Value &&val) {
         if (isObject() && val.isObject()) {
-            object_ += Memory::Move(val.object_);
-            val.setTypeToUndefined();
+            // val can be a member of this object: take it out before the table grows.
+            Value tmp{Memory::Move(val)};
+            object_ += Memory::Move(tmp.object_);
         } else if (isArray()) {
             array_ += Memory::Move(val);
         } else {
@@ -886,14 +887,17 @@ struct Value {
     }
 
     void Merge(Value &&val) {
+        // val can be an element of this value: take it out before this value's storage moves.
+        Value tmp{Memory::Move(val)};
+
         if (isUndefined()) {
             reset();
             setTypeToArray();
         }
 
-        if (isArray() && val.isArray()) {
-            Value       *src_val = val.array_.Storage();
-            const Value *end     = val.array_.End();
+        if (isArray() && tmp.isArray()) {
+            Value       *src_val = tmp.array_.Storage();
+            const Value *end     = tmp.array_.End();
 
             while (src_val < end) {
                 if (!(src_val->isUndefined())) {
@@ -902,11 +906,9 @@ struct Value {
 
                 ++src_val;
             }
-        } else if (isObject() && val.isObject()) {
-            object_ += Memory::Move(val.object_);
+        } else if (isObject() && tmp.isObject()) {
+            object_ += Memory::Move(tmp.object_);
         }
-
-        val.Reset();
     }
 
     void Merge(const Value &val) {
